@@ -249,7 +249,7 @@ def run(tier, seed, log=common.say):
     # (T) exploration of the real scheduler
     cfgs, opts = plan(tier, seed)
     te = time.time()
-    opts["deadline"] = time.time() + (900 if tier == "quick" else 3 * 3600)      # exploration budget (a healthy tree needs a fraction)
+    opts["deadline"] = time.time() + (600 if tier == "quick" else 3 * 3600)      # exploration budget (a healthy tree needs a fraction)
     results = sd.run_configs(cfgs, opts, seed=seed, procs=10 if tier == "quick" else 8)
     opts.pop("deadline", None)
     res["explore"] = {
